@@ -1,19 +1,85 @@
 """C04 -- decoders fail closed (DESIGN 3/C04).
-(M) MC_FailClosed: check-before-allocate fetch semantics => NoFabrication, WithinInput, BoundedAlloc, PrefixFails for every
-    abstract decoder x input x prefix; the zero-fill design golib had is refuted (named deviation).
-(A) Trace_FailClosed: every strict prefix and 23 hostile overwrites at every offset of real encodings, decoded by the real
-    decoders in a child process under an address-space limit."""
+(M)  MC_FailClosed: check-before-allocate fetch semantics => NoFabrication, WithinInput, BoundedAlloc, TagsKnown, PrefixFails
+     for every abstract decoder x input x prefix; the zero-fill design golib had and a lenient tag dispatch are refuted
+     (named deviations).
+(M2) MC_LazyStage: the lazily decoded second stage (parse first, publish after) => an access returns data only if the
+     stored bytes are a complete encoding, a failure is sticky (also across write + re-decode), allocation bounded by the
+     stored bytes; detaching the bytes before parsing and pre-sizing from the count are refuted (named deviations).
+(A)  Trace_FailClosed: every strict prefix and 28 hostile overwrites at every offset of real encodings, every code at every
+     position holding a type tag by construction, every accessor of every returned object (call sequences), and the
+     reads over a connection under every way the peer can end the stream -- real decoders in a child process under an
+     address-space limit."""
+
+import json, os
+import vf
+
+
+def stage2_selftest(run, out, meta):
+    """Binding demonstration for the second-stage and tag events: a good history in which (a) an unregistered code is added
+    to the codes a tag position accepted, (b) a failed access is followed by a successful one, (c) the written object no
+    longer fails, (d) an accessor call allocated 1 GiB -- each must be rejected."""
+    for job in meta.get("jobs", []):
+        lines = open(os.path.join(out, job["trace"])).read().splitlines()
+        for h in vf.split_histories(lines):
+            evs = [json.loads(x) for x in h]
+            ti = next((i for i, e in enumerate(evs) if e.get("ev") == "Tag"), None)
+            li = next((i for i, e in enumerate(evs) if e.get("ev") == "Lazy" and e.get("seqs")), None)
+            if ti is None or li is None:
+                continue
+            def variant(i, f):
+                e = json.loads(h[i])
+                f(e)
+                return h[:i] + [json.dumps(e, separators=(",", ":"))] + h[i + 1:]
+            def setr(r):
+                def f(e):
+                    e["seqs"][0]["r"] = r
+                return f
+            variants = {
+                "unregistered_code_accepted": variant(ti, lambda e: e["okcodes"].append(255)),
+                "access_succeeds_after_failure": variant(li, setr(["failed", "ok", "ok", "ok"])),
+                "written_object_no_longer_fails": variant(li, setr(["failed", "failed", "ok", "ok"])),
+                "accessor_allocates_1GiB": variant(li, lambda e: e.update(accalloc=1 << 30)),
+            }
+            res = {}
+            st = run.trace_states
+            for name, hh in variants.items():
+                p = os.path.join(out, "_selftest2_%s.ndjson" % name)
+                open(p, "w").write("\n".join(hh) + "\n")
+                acc, hwm, n, r = run.validate_file(job["spec"], p)
+                res[name + "_rejected"] = not acc
+            acc, hwm, n, r = run.validate_file(job["spec"], _write(out, "_selftest2_good.ndjson", h))
+            res["unchanged_history_accepted"] = bool(acc)
+            run.trace_states = st
+            run.selftests[job["spec"] + ":second-stage"] = res
+            if not all(res.values()):
+                raise vf.MachineryError("second-stage binding self-test failed: %s" % res)
+            vf.log("SELFTEST %s second stage %s" % (job["spec"], res))
+            return
+    raise vf.MachineryError("second-stage self-test found no history with Tag and Lazy events")
+
+
+def _write(out, name, lines):
+    p = os.path.join(out, name)
+    open(p, "w").write("\n".join(lines) + "\n")
+    return p
 
 
 def body(run):
     run.mc("MC_FailClosed", cfg="MC_FailClosed_thorough.cfg" if run.thorough() else "MC_FailClosed.cfg")
     run.mc("MC_FailClosed", cfg="MC_FailClosed_asis.cfg", expect_violation="NoFabrication")
+    run.mc("MC_FailClosed", cfg="MC_FailClosed_lenient.cfg", expect_violation="TagsKnown")
+    run.mc("MC_LazyStage", cfg="MC_LazyStage_thorough.cfg" if run.thorough() else "MC_LazyStage.cfg")
+    run.mc("MC_LazyStage", cfg="MC_LazyStage_detach.cfg", expect_violation="StickyFailure")
+    run.mc("MC_LazyStage", cfg="MC_LazyStage_presize.cfg", expect_violation="BoundedAlloc2")
     out, meta = run.drive("c04", timeout=3000)
     run.absorb(meta)
     run.validate(out, meta, max_findings=40)
     run.selftest(out, meta, gen="value", field="consumed", removed=False)  # events are independent: removing one is not detectable by design
+    stage2_selftest(run, out, meta)
     run.assumptions += [
-        "allocation is observed as the runtime.MemStats.TotalAlloc delta of the decoding call (an upper bound of its peak), judged against K*len+C with K=2048, C=1 MiB",
-        "decoders reading from a net.Conn (DataInputX tcp mode) are out of scope: the property is about decoding byte strings",
-        "hostile inputs are overwrites of 23 length/count/tag patterns at every offset < 400 of each valid encoding, not all byte strings",
+        "allocation is observed as the runtime.MemStats.TotalAlloc delta of the decoding call (an upper bound of its peak), judged against K*len+C with K=2048, C=1 MiB; accessor calls are screened with the runtime/metrics allocation counter and the large ones measured again exactly on a fresh object",
+        "type-tag positions are known by construction only: the object's own tag, packs nested in containers the generator put together, and values nested under field paths for which 5 independent instances all show the value's tagged encoding in the parent's bytes",
+        "the registries of type codes (value, step, pack, service) are constants of the trace spec taken from the format",
+        "reads over a connection: truncation and fault points only (plus hostile lengths for the limited frame read); the allocation of unlimited reads over a connection is by design not bounded by the input",
+        "hostile inputs are overwrites of 28 length/count/tag patterns at every offset < 400 of each valid encoding, not all byte strings",
     ]
